@@ -71,3 +71,5 @@ for r in rows:
 json.dump(det, open(dp, "w"), indent=1, sort_keys=True)
 shutil.rmtree(os.path.join(V, "evidence"))
 shutil.move(evbak, os.path.join(V, "evidence"))
+# the translators rewrote lean/HawkModel/Gen/*.lean from the seeded trees: put the committed (unchanged-tree) tables back
+subprocess.call(["git", "-C", V, "checkout", "--", "lean/HawkModel/Gen"])
